@@ -3,51 +3,67 @@ From Common Require Import Base.
 From Jwt Require Import Model Proofs.
 Open Scope Z_scope.
 
-(* the property, for a given version of ValidateJWT: after every history, acceptance implies the token's
-   own fields satisfy every clause, including "its token ID has not been revoked" *)
+(* the claim/revocation part of the property for a given version of ValidateJWT *)
 Definition C22_statement (fixed : bool) : Prop :=
-  forall cfg toks t0 h id,
-    let s := run fixed cfg toks h (init t0) in
-    accepted (validate fixed cfg s id (toks id)) = true -> good cfg (now s) (revoked s) (toks id) = true.
+  forall cfg toks t0 d0 h id, 0 < c_ttl cfg ->
+    let s := run fixed cfg toks h (init t0 d0) in
+    accepted (validate fixed cfg s id (toks id)) = true -> claims_ok cfg (now s) (revoked s) (toks id) = true.
 
 (* code before the repair: the revocation list is consulted only on a cache hit, so a revoked token that
    was never presented before (or whose cache entry is gone) is accepted *)
 Theorem C22_refuted_current :
-  exists cfg toks h id,
+  exists cfg toks d0 h id, 0 < c_ttl cfg /\
     In (Revoke (t_jti (toks id))) h /\ t_jti (toks id) <> [] /\
-    accepted (validate false cfg (run false cfg toks h (init 0)) id (toks id)) = true.
+    accepted (validate false cfg (run false cfg toks h (init 0 d0)) id (toks id)) = true.
 Proof. exact refuted_current. Qed.
 
-(* repaired code, every history of validations / revocations / clock advances / cache evictions / purges:
-   an accepted JWT uses an allowed algorithm, its kid resolves to a published key, the signature verifies,
-   issuer and audience match the configuration (when configured), exp is present and in the future,
-   nbf has passed, and its token ID is not revoked *)
+(* repaired code, every history of validations / revocations / clock advances / cache evictions / purges /
+   JWKS rotations from server start: an accepted JWT uses an allowed algorithm, issuer and audience match
+   the configuration (when configured), exp is present and in the future, nbf has passed, its token ID is
+   not revoked; and EITHER it is a result-cache hit (verified when it was cached: this theorem at that
+   step) OR its signature is intact and was made with the material the cached key set holds for its kid
+   (the first key without kid), that key set being less than the TTL old when the token names a kid *)
 Theorem C22_accept_sound :
-  forall cfg toks t0 h id,
-    let s := run true cfg toks h (init t0) in
-    accepted (validate true cfg s id (toks id)) = true ->
+  forall cfg toks t0 d0 h id, 0 < c_ttl cfg ->
+    let s := run true cfg toks h (init t0 d0) in
+    let r := validate true cfg s id (toks id) in
+    accepted r = true ->
     let t := toks id in
-    alg_allowed (t_alg t) = true /\ t_key_found t = true /\ t_sig_ok t = true /\
-    iss_ok cfg t = true /\ aud_ok cfg t = true /\
-    (exists e, t_exp t = Some e /\ now s < e) /\ nbf_ok (now s) t = true /\
-    is_revoked (revoked s) (t_jti t) = false.
+    (alg_allowed (t_alg t) = true /\ iss_ok cfg t = true /\ aud_ok cfg t = true /\
+     (exists e, t_exp t = Some e /\ now s < e) /\ nbf_ok (now s) t = true /\
+     is_revoked (revoked s) (t_jti t) = false) /\
+    (hit s id \/ key_now cfg (fst r) t).
 Proof. exact accept_sound. Qed.
 
+(* "published key": after every history the cached key set is empty (nothing fetched yet) or exactly the
+   usable keys of the document the IdP served at some earlier point h1 of the history — the moment of the
+   most recent successful fetch (fetched_at = the time then).  Keys the IdP withdrew before that fetch
+   are gone; nothing is carried over. *)
+Theorem C22_keys_from_last_fetch :
+  forall fixed cfg toks t0 d0 h, 0 < c_ttl cfg ->
+    let s := run fixed cfg toks h (init t0 d0) in
+    jwks s = [] \/
+    exists h1 h2, h = h1 ++ h2 /\
+      jwks s = usable (published (run fixed cfg toks h1 (init t0 d0))) /\
+      fetched_at s = now (run fixed cfg toks h1 (init t0 d0)).
+Proof. exact keys_from_last_fetch. Qed.
+
 (* revocation takes effect for every later request, whether or not the token was seen before: from ANY
-   state satisfying the cache invariant (any cache content), after any history h1 containing the
-   revocation and any continuation h2 *)
+   state satisfying the cache invariant (any cache content, any key set), after any history h1 containing
+   the revocation and any continuation h2 *)
 Theorem C22_revocation_effective :
-  forall cfg toks s0 h1 h2 j id,
+  forall cfg toks s0 h1 h2 j id, 0 < c_ttl cfg ->
     Inv cfg toks s0 -> j <> [] -> t_jti (toks id) = j -> In (Revoke j) h1 ->
     accepted (validate true cfg (run true cfg toks (h1 ++ h2) s0) id (toks id)) = false.
 Proof. exact revocation_effective. Qed.
 
-(* and nothing else is refused: a token satisfying every clause (and naming a user) is accepted as that
-   user, whatever the cache holds — old and repaired code alike *)
+(* and nothing else is refused: claims fine, not revoked, names a user, and a live result-cache entry or a
+   key selection yielding the signing material -> accepted as that user (old and repaired code alike) *)
 Theorem C22_accept_complete :
-  forall fixed cfg toks t0 h id,
-    let s := run fixed cfg toks h (init t0) in
-    good cfg (now s) (revoked s) (toks id) = true -> is_nil (user_of (toks id)) = false ->
+  forall fixed cfg toks t0 d0 h id, 0 < c_ttl cfg ->
+    let s := run fixed cfg toks h (init t0 d0) in
+    claims_ok cfg (now s) (revoked s) (toks id) = true -> is_nil (user_of (toks id)) = false ->
+    (hit s id \/ (snd (select_key cfg s (toks id)) = Some (t_signer (toks id)) /\ t_sig_valid (toks id) = true)) ->
     snd (validate fixed cfg s id (toks id)) = Accept (user_of (toks id)).
 Proof. exact accept_complete_run. Qed.
 
@@ -56,14 +72,21 @@ Example C22_nonvacuous :
   let toks := fun _ : nat => demo_tok in
   (* accepted, cached, accepted again, revoked -> refused on the hit path and on the miss path *)
   map outcome_code (outcomes true demo_cfg toks
-     [Validate 0; Advance 10; Validate 0; Revoke [106]%N; Validate 0; Validate 0; Purge; Validate 0] (init 0))
+     [Validate 0; Advance 10; Validate 0; Revoke [106]%N; Validate 0; Validate 0; Purge; Validate 0] (init 0 demo_doc))
     = [1; 1; 2; 2; 2]%N /\
   map outcome_code (outcomes false demo_cfg toks
-     [Validate 0; Advance 10; Validate 0; Revoke [106]%N; Validate 0; Validate 0; Purge; Validate 0] (init 0))
+     [Validate 0; Advance 10; Validate 0; Revoke [106]%N; Validate 0; Validate 0; Purge; Validate 0] (init 0 demo_doc))
     = [1; 1; 2; 1; 1]%N /\
-  good demo_cfg 0 [] demo_tok = true /\ good demo_cfg 1000 [] demo_tok = false /\
-  Inv demo_cfg toks (run true demo_cfg toks [Validate 0] (init 0)).
+  (* rotation: key 1 withdrawn (kid reused for key 2); cached result still served; after purge the fresh key
+     set still verifies it; once the key set is older than the TTL it is re-fetched and the token refused *)
+  map outcome_code (outcomes true demo_cfg toks
+     [Validate 0; Rotate demo_doc2; Validate 0; Purge; Validate 0; Advance 3600; Validate 0] (init 0 demo_doc))
+    = [1; 1; 1; 0]%N /\
+  claims_ok demo_cfg 0 [] demo_tok = true /\ claims_ok demo_cfg 1000 [] demo_tok = false /\
+  Inv demo_cfg toks (run true demo_cfg toks [Validate 0] (init 0 demo_doc)) /\
+  jwks (run true demo_cfg toks [Validate 0] (init 0 demo_doc)) = [([107]%N, 1%nat)].
 Proof.
   cbv zeta. split; [vm_compute; reflexivity|]. split; [vm_compute; reflexivity|].
-  split; [vm_compute; reflexivity|]. split; [vm_compute; reflexivity|]. apply Inv_run, Inv_init.
+  split; [vm_compute; reflexivity|]. split; [vm_compute; reflexivity|]. split; [vm_compute; reflexivity|].
+  split; [apply Inv_run; [reflexivity|apply Inv_init]|]. vm_compute. reflexivity.
 Qed.
